@@ -29,6 +29,44 @@ func VerifIsAcyclic(n int, edges [][]int) (bool, []int) {
 	return graph.IsAcyclic(verifGraph{adj: adj})
 }
 
+// verifCountingGraph counts the EdgesFrom calls of a cycle search and aborts
+// it once they exceed the budget.
+type verifCountingGraph struct {
+	adj    [][]int
+	steps  *int
+	budget int
+}
+
+type verifBudgetExceeded struct{}
+
+func (g verifCountingGraph) Order() int { return len(g.adj) }
+func (g verifCountingGraph) EdgesFrom(u int) []int {
+	*g.steps++
+	if *g.steps > g.budget {
+		panic(verifBudgetExceeded{})
+	}
+	return g.adj[u]
+}
+
+// VerifIsAcyclicSteps is VerifIsAcyclic with a logical step budget: steps is
+// the number of times the search asked for the successors of a node, and
+// exceeded reports that the search was aborted when that number passed the
+// budget (ok and path are then meaningless).
+func VerifIsAcyclicSteps(n int, edges [][]int, budget int) (ok bool, path []int, steps int, exceeded bool) {
+	adj := make([][]int, n)
+	copy(adj, edges)
+	defer func() {
+		if p := recover(); p != nil {
+			if _, is := p.(verifBudgetExceeded); !is {
+				panic(p)
+			}
+			exceeded = true
+		}
+	}()
+	ok, path = graph.IsAcyclic(verifCountingGraph{adj: adj, steps: &steps, budget: budget})
+	return ok, path, steps, false
+}
+
 // VerifMockClock returns an Option installing a mock clock and a function
 // advancing that clock.
 func VerifMockClock() (Option, func(time.Duration)) {
